@@ -121,3 +121,18 @@ impl VFuture for ClosureObj {
     uninterp spec fn ready_at(&self) -> nat;
     #[verifier::external_body] fn await_(self, Tracked(w): Tracked<&mut World>) -> (r: ()) { unimplemented!() }
 }
+
+// ---- WeakCaller / WeakAddr stand-ins (contracts proved in units h_caller / h_addr)
+#[verifier::external_body] #[verifier::accept_recursive_types(M)] pub struct WeakCaller<M> { p: core::marker::PhantomData<M> }
+impl<M> OwnView for WeakCaller<M> { open spec fn own(&self) -> Own { Own { none: false, chan: self.chan(), s_tx: false, s_force: false, w_tx: true, w_force: true, mixed: false } } }
+impl<M> WeakCaller<M> {
+    pub uninterp spec fn chan(&self) -> int; pub uninterp spec fn cid(&self) -> int;
+    // weakcaller.from-weak-tx-is-weak-same-actor (U-HCALLER)
+    #[verifier::external_body]
+    pub fn from_weak_tx<A>(weak_tx: WeakTx<A>, weak_force_tx: WeakForceTx<A>, id: ContextID) -> (r: Self)
+        ensures weak_tx.chan() == weak_force_tx.chan() ==> r.chan() == weak_tx.chan() && r.cid() == id.0 as int
+    { unimplemented!() }
+}
+#[verifier::external_body] #[verifier::accept_recursive_types(A)] pub struct WeakAddr<A> { p: core::marker::PhantomData<A> }
+impl<A> OwnView for WeakAddr<A> { open spec fn own(&self) -> Own { Own { none: false, chan: self.chan(), s_tx: false, s_force: false, w_tx: true, w_force: true, mixed: false } } }
+impl<A> WeakAddr<A> { pub uninterp spec fn chan(&self) -> int; pub uninterp spec fn cid(&self) -> int; pub uninterp spec fn slot(&self) -> int; }
